@@ -203,3 +203,575 @@ Proof.
   destruct (sel_nth_comp A m (x :: l') x i Hwf Hi Hm) as (k & Hk & _).
   rewrite Hnil in Hk. simpl in Hk. lia.
 Qed.
+
+Lemma sel_forall2 : forall A B (R : A -> B -> Prop) m (l1 : list A) (l2 : list B) d1 d2,
+  wf_mask m (length l2) -> length l1 = length l2 ->
+  (forall i, (i < length l2)%nat -> masked_at m i = false -> R (nth i l1 d1) (nth i l2 d2)) ->
+  Forall2 R (sel m l1) (sel m l2).
+Proof.
+  intros A B R [b|] l1 l2 d1 d2 Hwf Hlen H; simpl in *.
+  - revert l1 l2 Hwf Hlen H.
+    induction b as [|k b IH]; intros [|x l1] [|y l2] Hwf Hlen H; simpl in *; try lia; try constructor.
+    destruct k; simpl.
+    + apply IH; try lia. intros i Hi Hm. apply (H (S i)); [lia|exact Hm].
+    + constructor.
+      * apply (H 0%nat); [lia|reflexivity].
+      * apply IH; try lia. intros i Hi Hm. apply (H (S i)); [lia|exact Hm].
+  - revert l2 Hlen H. induction l1 as [|x l1 IH]; intros [|y l2] Hlen H; simpl in *; try lia; constructor.
+    + apply (H 0%nat); [lia|reflexivity].
+    + apply IH; [lia|]. intros i Hi Hm. apply (H (S i)); [lia|exact Hm].
+Qed.
+
+Lemma Forall2_len : forall A B (R : A -> B -> Prop) l1 l2, Forall2 R l1 l2 -> length l1 = length l2.
+Proof. induction 1; simpl; congruence. Qed.
+
+Lemma Forall2_eq_list : forall A (l1 l2 : list A), Forall2 eq l1 l2 -> l1 = l2.
+Proof. induction 1; congruence. Qed.
+
+Lemma sel_agree : forall A m (l1 l2 : list A) d,
+  wf_mask m (length l1) -> length l2 = length l1 ->
+  (forall i, (i < length l1)%nat -> masked_at m i = false -> nth i l1 d = nth i l2 d) ->
+  sel m l1 = sel m l2.
+Proof.
+  intros A m l1 l2 d Hwf Hlen H. apply Forall2_eq_list.
+  apply (sel_forall2 A A eq m l1 l2 d d).
+  - rewrite Hlen. exact Hwf.
+  - symmetry. exact Hlen.
+  - intros i Hi Hm. apply H; [rewrite <- Hlen; exact Hi|exact Hm].
+Qed.
+
+(** * The output mask *)
+
+(** the explicit mask requested for the target: the adapter's [out_mask], else the target's own *)
+Definition requested (am down : option mk) : option (list bool) :=
+  match am with
+  | Some u => bits_of u
+  | None => match down with Some d => bits_of d | None => None end
+  end.
+
+Lemma resolve_requested : forall am down om,
+  resolve am down = Some om -> bits_of om = requested am down.
+Proof.
+  intros [u|] [d|] om H; simpl in *; try congruence.
+  destruct (compat u d); congruence.
+Qed.
+
+Lemma resolve_wf : forall am down om n,
+  wf_mk am n -> wf_mk down n -> resolve am down = Some om -> wf_mask (bits_of om) n.
+Proof.
+  intros [u|] [d|] om n Ha Hd H; simpl in *; try congruence.
+  - destruct (compat u d); [|congruence]. inversion H; subst. destruct om; simpl; auto.
+  - inversion H; subst. destruct om; simpl; auto.
+  - inversion H; subst. destruct om; simpl; auto.
+Qed.
+
+(** * Nearest-neighbour regridding *)
+
+Section NearestProofs.
+  Context {A : Type}.
+  Variable nearest : point -> list point -> nat.
+  Hypothesis nearest_ok : nearest_spec nearest.
+
+  (** the element picked for a target point [p]: the value of an unmasked source element whose
+      location is at minimal distance from [p] among all unmasked source locations *)
+  Lemma nearest_pick : forall smask spts (svals : list A) d p,
+    length svals = length spts -> wf_mask smask (length spts) ->
+    (exists i, (i < length spts)%nat /\ masked_at smask i = false) ->
+    exists i, (i < length spts)%nat /\ masked_at smask i = false /\
+      nth (nearest p (sel smask spts)) (sel smask svals) d = nth i svals d /\
+      forall i', (i' < length spts)%nat -> masked_at smask i' = false ->
+                 dist2 p (nth i spts []) <= dist2 p (nth i' spts []).
+  Proof.
+    intros smask spts svals d p Hlen Hwf (i0 & Hi0 & Hm0).
+    assert (Hne : sel smask spts <> []) by (eapply sel_nonempty; eauto).
+    destruct (nearest_ok p _ Hne) as (Hk & Hmin).
+    destruct (sel_nth_orig point A smask spts svals [] d _ Hwf Hlen Hk) as (i & Hi & Hm & Hp & Hv).
+    exists i. repeat split; auto.
+    intros i' Hi' Hm'.
+    destruct (sel_nth_comp point smask spts [] i' Hwf Hi' Hm') as (k' & Hk' & Hp').
+    rewrite <- Hp, <- Hp'. apply Hmin, Hk'.
+  Qed.
+
+  Theorem nearest_correct : forall am down smask src_ma spts (svals : list A) tpts d om cells,
+    length svals = length spts -> wf_mask smask (length spts) ->
+    wf_mk am (length tpts) -> wf_mk down (length tpts) ->
+    (exists i, (i < length spts)%nat /\ masked_at smask i = false) ->
+    regrid_nearest nearest am down smask src_ma spts svals tpts d = Done om cells ->
+    bits_of om = requested am down /\
+    length cells = length tpts /\
+    forall j, (j < length tpts)%nat ->
+      if masked_at (requested am down) j then nth j cells CNaN = CMasked
+      else exists i, (i < length spts)%nat /\ masked_at smask i = false /\
+             nth j cells CNaN = CVal (nth i svals d) /\
+             forall i', (i' < length spts)%nat -> masked_at smask i' = false ->
+               dist2 (nth j tpts []) (nth i spts []) <= dist2 (nth j tpts []) (nth i' spts []).
+  Proof.
+    intros am down smask src_ma spts svals tpts d om cells Hlen Hwf Ha Hd Hex H.
+    unfold regrid_nearest in H.
+    destruct (resolve am down) as [om'|] eqn:Hres; [|discriminate].
+    destruct (in_data_refused smask src_ma); [discriminate|].
+    inversion H; subst om' cells; clear H.
+    pose proof (resolve_requested _ _ _ Hres) as Hreq.
+    pose proof (resolve_wf _ _ _ _ Ha Hd Hres) as Hwfo.
+    rewrite map_map. rewrite <- Hreq.
+    split; [reflexivity|]. split; [apply unsel_sel_length; exact Hwfo|].
+    intros j Hj. rewrite unsel_sel_nth by assumption.
+    destruct (masked_at (bits_of om) j); [reflexivity|].
+    destruct (nearest_pick smask spts svals d (nth j tpts []) Hlen Hwf Hex) as (i & Hi & Hm & Hv & Hmin).
+    exists i. repeat split; auto. rewrite Hv. reflexivity.
+  Qed.
+
+  (** identity on located values: a target location that coincides with exactly one unmasked
+      source location receives the value located there *)
+  Theorem nearest_identity : forall am down smask src_ma spts (svals : list A) tpts d om cells j i0,
+    length svals = length spts -> wf_mask smask (length spts) ->
+    wf_mk am (length tpts) -> wf_mk down (length tpts) ->
+    regrid_nearest nearest am down smask src_ma spts svals tpts d = Done om cells ->
+    (j < length tpts)%nat -> masked_at (requested am down) j = false ->
+    (i0 < length spts)%nat -> masked_at smask i0 = false ->
+    same_loc (nth j tpts []) (nth i0 spts []) ->
+    (forall i, (i < length spts)%nat -> masked_at smask i = false ->
+               same_loc (nth j tpts []) (nth i spts []) -> i = i0) ->
+    nth j cells CNaN = CVal (nth i0 svals d).
+  Proof.
+    intros am down smask src_ma spts svals tpts d om cells j i0 Hlen Hwf Ha Hd H Hj Hmj Hi0 Hm0 Hsame Huniq.
+    destruct (nearest_correct _ _ _ _ _ _ _ _ _ _ Hlen Hwf Ha Hd (ex_intro _ i0 (conj Hi0 Hm0)) H)
+      as (_ & _ & Hall).
+    specialize (Hall j Hj). rewrite Hmj in Hall.
+    destruct Hall as (i & Hi & Hm & Hv & Hmin).
+    assert (i = i0).
+    { apply Huniq; auto. unfold same_loc in *.
+      specialize (Hmin i0 Hi0 Hm0). pose proof (dist2_nonneg (nth j tpts []) (nth i spts [])). lra. }
+    subst i. exact Hv.
+  Qed.
+End NearestProofs.
+
+(** no hypothesis on the oracle is needed for the following two *)
+Theorem nearest_noninterference : forall A nearest am down smask src_ma spts (svals svals' : list A) tpts d,
+  length svals = length spts -> length svals' = length spts -> wf_mask smask (length spts) ->
+  (forall i, (i < length spts)%nat -> masked_at smask i = false -> nth i svals d = nth i svals' d) ->
+  regrid_nearest nearest am down smask src_ma spts svals tpts d =
+  regrid_nearest nearest am down smask src_ma spts svals' tpts d.
+Proof.
+  intros A nearest am down smask src_ma spts svals svals' tpts d H1 H2 Hwf Hag.
+  unfold regrid_nearest.
+  rewrite (sel_agree A smask svals svals' d); auto.
+  - rewrite H1; exact Hwf.
+  - congruence.
+  - intros i Hi Hm. apply Hag; [rewrite <- H1; exact Hi|exact Hm].
+Qed.
+
+Theorem nearest_masked_stay : forall A nearest am down smask src_ma spts (svals : list A) tpts d om cells,
+  wf_mk am (length tpts) -> wf_mk down (length tpts) ->
+  regrid_nearest nearest am down smask src_ma spts svals tpts d = Done om cells ->
+  length cells = length tpts /\
+  forall j, (j < length tpts)%nat -> masked_at (requested am down) j = true -> nth j cells CNaN = CMasked.
+Proof.
+  intros A nearest am down smask src_ma spts svals tpts d om cells Ha Hd H.
+  unfold regrid_nearest in H.
+  destruct (resolve am down) as [om'|] eqn:Hres; [|discriminate].
+  destruct (in_data_refused smask src_ma); [discriminate|].
+  inversion H; subst om' cells; clear H.
+  pose proof (resolve_requested _ _ _ Hres) as Hreq.
+  pose proof (resolve_wf _ _ _ _ Ha Hd Hres) as Hwfo.
+  rewrite map_map, <- Hreq. split; [apply unsel_sel_length; exact Hwfo|].
+  intros j Hj Hm. rewrite unsel_sel_nth by assumption. rewrite Hm. reflexivity.
+Qed.
+
+(** * Linear regridding (unstructured / masked-source path) *)
+
+(** ** the oracle hypotheses, about the interpolator built on the point list [ic] *)
+
+Fixpoint wsum (ws xs : list Q) : Q :=
+  match ws, xs with
+  | w :: ws', x :: xs' => w * x + wsum ws' xs'
+  | _, _ => 0
+  end.
+
+Definition coord (k : nat) (p : point) : Q := nth k p 0.
+
+(** [p] is a convex combination of [pts] (all of the dimension of [p]) *)
+Definition in_hull (pts : list point) (p : point) : Prop :=
+  Forall (fun q => length q = length p) pts /\
+  exists ws, length ws = length pts /\ Forall (fun w => 0 <= w) ws /\
+             wsum ws (map (fun _ => 1) pts) == 1 /\
+             forall k, (k < length p)%nat -> wsum ws (map (coord k) pts) == coord k p.
+
+Definition zeros_of (ic : list point) : list Q := map (fun _ => 0) ic.
+
+(** wherever it is defined, the interpolant of (values rationally equal to) an affine field is that field *)
+Definition lin_affine_ok (lin : list point -> list Q -> point -> option Q) (ic : list point) : Prop :=
+  forall c0 g vs p v,
+    Forall2 (fun x q => x == affine_fn c0 g q) vs ic ->
+    lin ic vs p = Some v -> v == affine_fn c0 g p.
+
+(** whether the interpolant is defined at a point does not depend on the values *)
+Definition lin_domain_ok (lin : list point -> list Q -> point -> option Q) (ic : list point) : Prop :=
+  forall vs p, length vs = length ic -> (lin ic vs p = None <-> lin ic (zeros_of ic) p = None).
+
+(** it is defined exactly on the (closed) convex hull of the points *)
+Definition lin_hull_ok (lin : list point -> list Q -> point -> option Q) (ic : list point) : Prop :=
+  forall p, lin ic (zeros_of ic) p <> None <-> in_hull ic p.
+
+Lemma existsb_id_false_nth : forall l j, existsb (fun b : bool => b) l = false -> nth j l false = false.
+Proof.
+  induction l as [|b l IH]; intros [|j] H; simpl in *; auto.
+  - apply orb_false_iff in H. tauto.
+  - apply orb_false_iff in H. apply IH. tauto.
+Qed.
+
+Lemma is_sub_mask_spec : forall m sub, is_sub_mask m sub = true ->
+  length m = length sub /\ forall j, nth j m false = true -> nth j sub false = true.
+Proof.
+  induction m as [|a m IH]; intros [|b sub] H; simpl in *; try discriminate.
+  - split; auto.
+  - apply andb_true_iff in H. destruct H as [H1 H2]. destruct (IH sub H2) as [Hl Hn].
+    split; [lia|]. intros [|j] Hj; simpl in *.
+    + subst a. simpl in H1. exact H1.
+    + apply Hn, Hj.
+Qed.
+
+Lemma nth_map_outside : forall (f : point -> bool) (tpts : list point) j,
+  (j < length tpts)%nat -> nth j (map f tpts) false = f (nth j tpts []).
+Proof.
+  intros f tpts j Hj. rewrite (nth_indep _ false (f [])) by (rewrite map_length; exact Hj).
+  apply map_nth.
+Qed.
+
+Section LinearProofs.
+  Variable nearest : point -> list point -> nat.
+  Variable lin : list point -> list Q -> point -> option Q.
+
+  (** the output mask of the no-fill path: [om] covers the requested mask and every target point
+      where the interpolator is undefined *)
+  Lemma nofill_mask : forall am down tpts (outside : point -> bool) u om,
+    wf_mk am (length tpts) ->
+    match am with
+    | None | Some KFlex => Some (KBits (map outside tpts))
+    | Some KNone => if existsb (fun b => b) (map outside tpts) then None else Some KNone
+    | Some (KBits b) => if is_sub_mask (map outside tpts) b then Some (KBits b) else None
+    end = Some u ->
+    resolve (Some u) down = Some om ->
+    om = u /\ wf_mask (bits_of om) (length tpts) /\
+    (forall j, (j < length tpts)%nat -> masked_at (bits_of om) j = false -> outside (nth j tpts []) = false) /\
+    (forall j, (j < length tpts)%nat -> masked_at (requested am down) j = true -> masked_at (bits_of om) j = true).
+  Proof.
+    intros am down tpts outside u om Ha Hu Hres.
+    assert (Hom : om = u).
+    { simpl in Hres. destruct down as [d|]; [destruct (compat u d)|]; congruence. }
+    subst om. split; [reflexivity|].
+    destruct am as [[| |b]|]; simpl in *.
+    - (* FLEX *) inversion Hu; subst u; simpl. split; [apply map_length|]. split.
+      + intros j Hj Hm. rewrite nth_map_outside in Hm by exact Hj. exact Hm.
+      + intros j Hj Hm. discriminate.
+    - (* NONE *) destruct (existsb (fun b => b) (map outside tpts)) eqn:E; [discriminate|].
+      inversion Hu; subst u; simpl. split; [exact I|]. split.
+      + intros j Hj _. rewrite <- (nth_map_outside outside tpts j Hj). apply existsb_id_false_nth, E.
+      + intros j Hj Hm. discriminate.
+    - (* bits *) destruct (is_sub_mask (map outside tpts) b) eqn:E; [|discriminate].
+      inversion Hu; subst u; simpl. split; [exact Ha|]. split.
+      + intros j Hj Hm. destruct (is_sub_mask_spec _ _ E) as [_ Hs].
+        destruct (outside (nth j tpts [])) eqn:Eo; [|reflexivity].
+        rewrite <- (nth_map_outside outside tpts j Hj) in Eo. rewrite (Hs j Eo) in Hm. discriminate.
+      + intros j Hj Hm. exact Hm.
+    - (* unset *) inversion Hu; subst u; simpl. split; [apply map_length|]. split.
+      + intros j Hj Hm. rewrite nth_map_outside in Hm by exact Hj. exact Hm.
+      + intros j Hj Hm. destruct down as [[| |d]|]; simpl in *; try discriminate.
+        destruct (bool_list_eqb d (map outside tpts)) eqn:E; [|discriminate].
+        apply bool_list_eqb_eq in E. subst d. exact Hm.
+  Qed.
+
+  Lemma regrid_linear_nofill_inv : forall am down smask src_ma spts svals tpts om cells,
+    regrid_linear nearest lin false am down smask src_ma spts svals tpts = Done om cells ->
+    let ic := sel smask spts in
+    let outside := fun p => isnone (lin ic (zeros_of ic) p) in
+    exists u,
+      match am with
+      | None | Some KFlex => Some (KBits (map outside tpts))
+      | Some KNone => if existsb (fun b => b) (map outside tpts) then None else Some KNone
+      | Some (KBits b) => if is_sub_mask (map outside tpts) b then Some (KBits b) else None
+      end = Some u /\
+      resolve (Some u) down = Some om /\
+      cells = unsel (bits_of om) (map (lin_cell lin ic (sel smask svals)) (sel (bits_of om) tpts)).
+  Proof.
+    intros am down smask src_ma spts svals tpts om cells H ic outside.
+    unfold regrid_linear in H. cbv zeta in H. fold ic in H. fold (zeros_of ic) in H.
+    change (fun p : point => isnone (lin ic (zeros_of ic) p)) with outside in H.
+    destruct (match am with
+              | None | Some KFlex => Some (KBits (map outside tpts))
+              | Some KNone => if existsb (fun b => b) (map outside tpts) then None else Some KNone
+              | Some (KBits b) => if is_sub_mask (map outside tpts) b then Some (KBits b) else None
+              end) as [u|] eqn:Hu.
+    - exists u. split; [reflexivity|].
+      assert (H' : match resolve (Some u) down with
+                   | None => ErrMeta
+                   | Some om0 => if in_data_refused smask src_ma then ErrData
+                                 else Done om0 (unsel (bits_of om0) (map (lin_cell lin ic (sel smask svals)) (sel (bits_of om0) tpts)))
+                   end = Done om cells).
+      { destruct am as [a|]; [exact H|]. destruct down as [d|]; [exact H|discriminate]. }
+      clear H. destruct (resolve (Some u) down) as [om0|]; [|discriminate].
+      destruct (in_data_refused smask src_ma); [discriminate|].
+      inversion H'; subst. split; reflexivity.
+    - exfalso. destruct am as [a|]; [discriminate|]. destruct down as [d|]; discriminate.
+  Qed.
+
+  Theorem linear_masked_stay : forall fill am down smask src_ma spts svals tpts om cells,
+    wf_mk am (length tpts) -> wf_mk down (length tpts) ->
+    regrid_linear nearest lin fill am down smask src_ma spts svals tpts = Done om cells ->
+    length cells = length tpts /\
+    forall j, (j < length tpts)%nat -> masked_at (requested am down) j = true -> nth j cells CNaN = CMasked.
+  Proof.
+    intros [|] am down smask src_ma spts svals tpts om cells Ha Hd H.
+    - unfold regrid_linear in H. cbv zeta in H.
+      destruct (resolve am down) as [om'|] eqn:Hres; [|discriminate].
+      destruct (in_data_refused smask src_ma); [discriminate|].
+      inversion H; subst om' cells; clear H.
+      pose proof (resolve_requested _ _ _ Hres) as Hreq.
+      pose proof (resolve_wf _ _ _ _ Ha Hd Hres) as Hwfo.
+      rewrite <- Hreq. split; [apply unsel_sel_length; exact Hwfo|].
+      intros j Hj Hm. rewrite unsel_sel_nth by assumption. rewrite Hm. reflexivity.
+    - destruct (regrid_linear_nofill_inv _ _ _ _ _ _ _ _ _ H) as (u & Hu & Hres & Hc).
+      destruct (nofill_mask am down tpts _ u om Ha Hu Hres) as (_ & Hwfo & _ & Hreq).
+      subst cells. split; [apply unsel_sel_length; exact Hwfo|].
+      intros j Hj Hm. rewrite unsel_sel_nth by assumption. rewrite (Hreq j Hj Hm). reflexivity.
+  Qed.
+
+  Theorem linear_noninterference : forall fill am down smask src_ma spts svals svals' tpts,
+    length svals = length spts -> length svals' = length spts -> wf_mask smask (length spts) ->
+    (forall i, (i < length spts)%nat -> masked_at smask i = false -> nth i svals 0 = nth i svals' 0) ->
+    regrid_linear nearest lin fill am down smask src_ma spts svals tpts =
+    regrid_linear nearest lin fill am down smask src_ma spts svals' tpts.
+  Proof.
+    intros fill am down smask src_ma spts svals svals' tpts H1 H2 Hwf Hag.
+    unfold regrid_linear.
+    rewrite (sel_agree Q smask svals svals' 0); auto.
+    - rewrite H1; exact Hwf.
+    - congruence.
+    - intros i Hi Hm. apply Hag; [rewrite <- H1; exact Hi|exact Hm].
+  Qed.
+
+  (** *** affine fields *)
+  Section Affine.
+    Variables (smask : option (list bool)) (spts : list point) (svals : list Q) (c0 : Q) (g : list Q).
+    Let ic := sel smask spts.
+    Let cv := sel smask svals.
+    Hypothesis Hlen : length svals = length spts.
+    Hypothesis Hwf : wf_mask smask (length spts).
+    Hypothesis lin_affine : lin_affine_ok lin ic.
+    Hypothesis lin_domain : lin_domain_ok lin ic.
+    (** the source field is affine on the unmasked elements (anything under the mask) *)
+    Hypothesis field_affine : forall i, (i < length spts)%nat -> masked_at smask i = false ->
+      nth i svals 0 == affine_fn c0 g (nth i spts []).
+
+    Lemma cv_affine : Forall2 (fun x q => x == affine_fn c0 g q) cv ic.
+    Proof.
+      unfold cv, ic. apply (sel_forall2 Q point _ smask svals spts 0 []); auto.
+    Qed.
+
+    Lemma lin_cell_inside : forall p, lin ic (zeros_of ic) p <> None ->
+      exists v, lin_cell lin ic cv p = CVal v /\ v == affine_fn c0 g p.
+    Proof.
+      intros p Hdef. unfold lin_cell.
+      destruct (lin ic cv p) as [v|] eqn:E.
+      - exists v. split; [reflexivity|]. eapply lin_affine; [apply cv_affine|exact E].
+      - exfalso. apply Hdef. exact (proj1 (lin_domain cv p (Forall2_len _ _ _ _ _ cv_affine)) E).
+    Qed.
+
+    Theorem linear_affine_nofill : forall am down src_ma tpts om cells,
+      lin_hull_ok lin ic ->
+      wf_mk am (length tpts) -> wf_mk down (length tpts) ->
+      regrid_linear nearest lin false am down smask src_ma spts svals tpts = Done om cells ->
+      length cells = length tpts /\
+      forall j, (j < length tpts)%nat ->
+        (masked_at (requested am down) j = true -> masked_at (bits_of om) j = true) /\
+        (~ in_hull ic (nth j tpts []) -> masked_at (bits_of om) j = true) /\
+        (masked_at (bits_of om) j = true -> nth j cells CNaN = CMasked) /\
+        (masked_at (bits_of om) j = false ->
+           in_hull ic (nth j tpts []) /\
+           exists v, nth j cells CNaN = CVal v /\ v == affine_fn c0 g (nth j tpts [])).
+    Proof.
+      intros am down src_ma tpts om cells lin_hull Ha Hd H.
+      destruct (regrid_linear_nofill_inv _ _ _ _ _ _ _ _ _ H) as (u & Hu & Hres & Hc).
+      fold ic in Hu, Hc. fold cv in Hc.
+      destruct (nofill_mask am down tpts _ u om Ha Hu Hres) as (_ & Hwfo & Hin & Hreq).
+      subst cells. split; [apply unsel_sel_length; exact Hwfo|].
+      intros j Hj.
+      assert (Hunm : masked_at (bits_of om) j = false -> lin ic (zeros_of ic) (nth j tpts []) <> None).
+      { intros Hm E. specialize (Hin j Hj Hm). simpl in Hin. rewrite E in Hin. discriminate. }
+      split; [apply Hreq, Hj|]. split; [|split].
+      - intros Hnh. destruct (masked_at (bits_of om) j) eqn:Em; [reflexivity|].
+        exfalso. apply Hnh. apply lin_hull. apply Hunm. reflexivity.
+      - intros Hm. rewrite unsel_sel_nth by assumption. rewrite Hm. reflexivity.
+      - intros Hm. split; [apply lin_hull, Hunm, Hm|].
+        rewrite unsel_sel_nth by assumption. rewrite Hm. apply lin_cell_inside, Hunm, Hm.
+    Qed.
+
+    Theorem linear_affine_fill : forall am down src_ma tpts om cells,
+      nearest_spec nearest -> lin_hull_ok lin ic ->
+      wf_mk am (length tpts) -> wf_mk down (length tpts) ->
+      (exists i, (i < length spts)%nat /\ masked_at smask i = false) ->
+      regrid_linear nearest lin true am down smask src_ma spts svals tpts = Done om cells ->
+      bits_of om = requested am down /\
+      length cells = length tpts /\
+      forall j, (j < length tpts)%nat ->
+        (masked_at (requested am down) j = true -> nth j cells CNaN = CMasked) /\
+        (masked_at (requested am down) j = false ->
+           (in_hull ic (nth j tpts []) ->
+              exists v, nth j cells CNaN = CVal v /\ v == affine_fn c0 g (nth j tpts [])) /\
+           (~ in_hull ic (nth j tpts []) ->
+              exists i, (i < length spts)%nat /\ masked_at smask i = false /\
+                nth j cells CNaN = CVal (nth i svals 0) /\
+                forall i', (i' < length spts)%nat -> masked_at smask i' = false ->
+                  dist2 (nth j tpts []) (nth i spts []) <= dist2 (nth j tpts []) (nth i' spts []))).
+    Proof.
+      intros am down src_ma tpts om cells nearest_ok lin_hull Ha Hd Hex H.
+      unfold regrid_linear in H. cbv zeta in H. fold ic in H. fold cv in H. fold (zeros_of ic) in H.
+      destruct (resolve am down) as [om'|] eqn:Hres; [|discriminate].
+      destruct (in_data_refused smask src_ma); [discriminate|].
+      inversion H; subst om' cells; clear H.
+      pose proof (resolve_requested _ _ _ Hres) as Hreq.
+      pose proof (resolve_wf _ _ _ _ Ha Hd Hres) as Hwfo.
+      rewrite <- Hreq. split; [reflexivity|]. split; [apply unsel_sel_length; exact Hwfo|].
+      intros j Hj. rewrite unsel_sel_nth by assumption. split.
+      - intros Hm. rewrite Hm. reflexivity.
+      - intros Hm. rewrite Hm. split.
+        + intros Hin. apply lin_hull in Hin.
+          destruct (lin ic (zeros_of ic) (nth j tpts [])) eqn:E; [|congruence]. simpl.
+          apply lin_cell_inside. rewrite E. discriminate.
+        + intros Hnin.
+          destruct (lin ic (zeros_of ic) (nth j tpts [])) eqn:E.
+          * exfalso. apply Hnin, lin_hull. rewrite E. discriminate.
+          * simpl.
+            destruct (nearest_pick nearest nearest_ok smask spts svals 0 (nth j tpts []) Hlen Hwf Hex)
+              as (i & Hi & Hmi & Hv & Hmin).
+            exists i. repeat split; auto. unfold cv, ic. rewrite Hv. reflexivity.
+    Qed.
+  End Affine.
+End LinearProofs.
+
+(** * Identity between two layouts of the same located elements *)
+
+Lemma Forall2_Qeq_sym : forall p q, Forall2 Qeq p q -> Forall2 Qeq q p.
+Proof. induction 1; constructor; auto. symmetry; assumption. Qed.
+
+Lemma same_loc_trans : forall p q r, length p = length q -> length p = length r ->
+  same_loc p q -> same_loc p r -> same_loc q r.
+Proof.
+  unfold same_loc. intros p q r Hq Hr H1 H2.
+  apply dist2_zero_coords in H1; [|exact Hq]. apply dist2_zero_coords in H2; [|exact Hr].
+  rewrite (dist2_compat_r q r p (Forall2_Qeq_sym _ _ H2)).
+  rewrite dist2_sym. apply coords_dist2_zero, H1.
+Qed.
+
+Lemma Forall_nth_in : forall A (P : A -> Prop) l i d, Forall P l -> (i < length l)%nat -> P (nth i l d).
+Proof. intros A P l i d H Hi. rewrite Forall_forall in H. apply H, nth_In, Hi. Qed.
+
+(** The target is a re-layout of the source: every target element [j] lies at the location of the
+    unmasked source element [pi j]; distinct unmasked source elements have distinct locations.
+    Then every unmasked target element receives exactly the value located there. *)
+Theorem nearest_identity_relayout :
+  forall (A : Type) (nearest : point -> list point -> nat), nearest_spec nearest ->
+  forall am down smask src_ma spts (svals : list A) tpts d om cells (dm : nat) (pi : nat -> nat),
+    length svals = length spts -> wf_mask smask (length spts) ->
+    wf_mk am (length tpts) -> wf_mk down (length tpts) ->
+    Forall (fun p => length p = dm) spts -> Forall (fun p => length p = dm) tpts ->
+    (forall i i', (i < length spts)%nat -> (i' < length spts)%nat ->
+       masked_at smask i = false -> masked_at smask i' = false ->
+       same_loc (nth i spts []) (nth i' spts []) -> i = i') ->
+    (forall j, (j < length tpts)%nat ->
+       (pi j < length spts)%nat /\ masked_at smask (pi j) = false /\
+       same_loc (nth j tpts []) (nth (pi j) spts [])) ->
+    regrid_nearest nearest am down smask src_ma spts svals tpts d = Done om cells ->
+    forall j, (j < length tpts)%nat -> masked_at (requested am down) j = false ->
+      nth j cells CNaN = CVal (nth (pi j) svals d).
+Proof.
+  intros A nearest Hn am down smask src_ma spts svals tpts d om cells dm pi
+         Hlen Hwf Ha Hd Hds Hdt Hdist Hpi H j Hj Hmj.
+  destruct (Hpi j Hj) as (Hp1 & Hp2 & Hp3).
+  apply (nearest_identity nearest Hn am down smask src_ma spts svals tpts d om cells j (pi j)); auto.
+  intros i Hi Hm Hsame.
+  apply Hdist; auto.
+  pose proof (Forall_nth_in _ _ _ j [] Hdt Hj) as L1.
+  pose proof (Forall_nth_in _ _ _ i [] Hds Hi) as L2.
+  pose proof (Forall_nth_in _ _ _ (pi j) [] Hds Hp1) as L3.
+  simpl in L1, L2, L3.
+  apply (same_loc_trans (nth j tpts [])); [congruence|congruence|exact Hsame|exact Hp3].
+Qed.
+
+(** * Progress: when data is delivered *)
+
+Lemma nearest_progress : forall A nearest am down smask src_ma spts (svals : list A) tpts d om,
+  resolve am down = Some om -> in_data_refused smask src_ma = false ->
+  exists cells, regrid_nearest nearest am down smask src_ma spts svals tpts d = Done om cells.
+Proof.
+  intros A nearest am down smask src_ma spts svals tpts d om Hr Hf. unfold regrid_nearest.
+  rewrite Hr, Hf. eexists. reflexivity.
+Qed.
+
+(** without an explicit request the linear adapter always delivers (masking the outside) *)
+Lemma linear_nofill_progress : forall nearest lin smask src_ma spts svals tpts,
+  in_data_refused smask src_ma = false ->
+  exists om cells,
+    regrid_linear nearest lin false None (Some KFlex) smask src_ma spts svals tpts = Done om cells.
+Proof.
+  intros nearest lin smask src_ma spts svals tpts Hf. unfold regrid_linear. cbv zeta. simpl.
+  rewrite Hf. eexists. eexists. reflexivity.
+Qed.
+
+(** * A concrete interpolator (barycentric interpolation on one triangle) satisfying the oracle
+      hypotheses: used for the non-vacuity examples of the property file *)
+
+Definition ic_tri : list point := [[0; 0]; [1; 0]; [0; 1]].
+
+Definition lin_tri (pts : list point) (vs : list Q) (p : point) : option Q :=
+  match vs, p with
+  | [v0; v1; v2], [x; y] =>
+      if Qle_bool 0 x && Qle_bool 0 y && Qle_bool (x + y) 1
+      then Some (v0 + (v1 - v0) * x + (v2 - v0) * y) else None
+  | _, _ => None
+  end.
+
+Lemma lin_tri_affine : lin_affine_ok lin_tri ic_tri.
+Proof.
+  intros c0 g vs p v HF H.
+  inversion HF as [|v0 q0 vs0 l0 E0 HF0]; subst. inversion HF0 as [|v1 q1 vs1 l1 E1 HF1]; subst.
+  inversion HF1 as [|v2 q2 vs2 l2 E2 HF2]; subst. inversion HF2; subst.
+  destruct p as [|x [|y [|z p']]]; simpl in H; try discriminate.
+  destruct (Qle_bool 0 x && Qle_bool 0 y && Qle_bool (x + y) 1); [|discriminate].
+  inversion H; subst v. rewrite E0, E1, E2. unfold affine_fn.
+  destruct g as [|a [|b g']]; simpl; ring.
+Qed.
+
+Lemma lin_tri_domain : lin_domain_ok lin_tri ic_tri.
+Proof.
+  intros vs p Hl. destruct vs as [|v0 [|v1 [|v2 [|v3 vs']]]]; simpl in Hl; try discriminate.
+  destruct p as [|x [|y [|z p']]]; simpl; try tauto.
+  destruct (Qle_bool 0 x && Qle_bool 0 y && Qle_bool (x + y) 1); split; intro; congruence.
+Qed.
+
+Lemma lin_tri_hull : lin_hull_ok lin_tri ic_tri.
+Proof.
+  intros p. split.
+  - intros H. destruct p as [|x [|y [|z p']]]; simpl in H; try congruence.
+    destruct (Qle_bool 0 x && Qle_bool 0 y && Qle_bool (x + y) 1) eqn:E; [|congruence].
+    apply andb_true_iff in E. destruct E as [E E3]. apply andb_true_iff in E. destruct E as [E1 E2].
+    apply Qle_bool_iff in E1, E2, E3.
+    split; [repeat constructor|].
+    exists [1 - x - y; x; y]. split; [reflexivity|]. split; [repeat constructor; lra|].
+    split; [simpl; ring|].
+    intros [|[|k]] Hk; simpl in *; try lia; unfold coord; simpl; ring.
+  - intros (Hdim & ws & Hl & Hpos & Hsum & Hc).
+    inversion Hdim as [|q0 l0 Hq0 _]; subst. simpl in Hq0.
+    destruct p as [|x [|y [|z p']]]; simpl in Hq0; try discriminate.
+    destruct ws as [|w0 [|w1 [|w2 [|w3 ws']]]]; simpl in Hl; try discriminate.
+    inversion Hpos as [|? ? P0 Hpos1]; subst. inversion Hpos1 as [|? ? P1 Hpos2]; subst.
+    inversion Hpos2 as [|? ? P2 _]; subst.
+    pose proof (Hc 0%nat) as C0. pose proof (Hc 1%nat) as C1.
+    simpl in C0, C1, Hsum. unfold coord in C0, C1. simpl in C0, C1.
+    assert (L0 : (0 < 2)%nat) by lia. assert (L1 : (1 < 2)%nat) by lia.
+    specialize (C0 L0). specialize (C1 L1).
+    assert (X0 : Qle_bool 0 x = true) by (apply Qle_bool_iff; lra).
+    assert (X1 : Qle_bool 0 y = true) by (apply Qle_bool_iff; lra).
+    assert (X2 : Qle_bool (x + y) 1 = true) by (apply Qle_bool_iff; lra).
+    simpl. rewrite X0, X1, X2. simpl. discriminate.
+Qed.
